@@ -1,0 +1,41 @@
+//go:build verif
+
+// Contracts for the deductive verifier in /verif (comment-only file; it
+// contributes no code to any build). Syntax: see /verif/DESIGN.md.
+//
+// Property C17 (plumbing of read-through replication). repCalls(r): number of
+// ReplicateSingle/ReplicateComposite calls on replicator r; repMulti(r) and
+// repMultiArg(r): number of ReplicateMultiple calls and the set (by backing
+// array) last passed. selErr: the error the selector returned last.
+package replication
+
+//@ ghost repCalls(ref) int
+//@ ghost repMulti(ref) int
+//@ ghost repMultiArg(ref) int
+//@ ghost repErr(ref) int
+//@ ghost selErr int
+//@ iface BlobReplicator.ReplicateSingle
+//@   modifies repCalls(self)
+//@   ensures repCalls(self) == old(repCalls(self)) + 1 && result != nil
+//@ iface BlobReplicator.ReplicateComposite
+//@   modifies repCalls(self)
+//@   ensures repCalls(self) == old(repCalls(self)) + 1 && result != nil
+//@ iface BlobReplicator.ReplicateMultiple
+//@   modifies repMulti(self), repMultiArg(self), repErr(self)
+//@   ensures repMulti(self) == old(repMulti(self)) + 1 && repMultiArg(self) == base(digests.digests) && repErr(self) == result
+// A selector either names a replicator or gives the error to report (it keeps
+// state of its own, hence the frame).
+//@ iface BlobReplicatorSelector.call
+//@   modifies *, selErr
+//@   ensures selErr == result1 && ((result1 == nil) <==> (result0 != nil))
+
+// The error handlers behind GetWithBlobReplicator: the selector's error is
+// what the consumer gets; otherwise exactly one replication is started.
+//@ func (*getReplicatingErrorHandler).OnError
+//@   requires eh.selector != nil
+//@   ensures [selectors-error-is-reported] result1 == selErr && (result1 != nil ==> result0 == nil)
+//@   ensures [replacement-otherwise] result1 == nil ==> result0 != nil
+//@ func (*getFromCompositeReplicatingErrorHandler).OnError
+//@   requires eh.selector != nil
+//@   ensures [selectors-error-is-reported] result1 == selErr && (result1 != nil ==> result0 == nil)
+//@   ensures [replacement-otherwise] result1 == nil ==> result0 != nil
